@@ -18,8 +18,9 @@ KeyOrders == { <<"a", "b", "c">>, <<"c", "b", "a">>, <<"b", "c", "a">> }
 Index(f) == CHOOSE k \in 1..3 : AllFeatures[k] = f
 Val(i, f) == 10 * i + Index(f)
 \* what reaches the model for row i: the named features in the given order, or all keys in dict order
-Reaching(i) == IF names = <<>> THEN [k \in 1..3 |-> Val(i, keyorder[k])]
-               ELSE [k \in 1..Len(names) |-> Val(i, names[k])]
+ReachingKO(i, ko) == IF names = <<>> THEN [k \in 1..3 |-> Val(i, ko[k])]
+                     ELSE [k \in 1..Len(names) |-> Val(i, names[k])]
+Reaching(i) == ReachingKO(i, keyorder)
 WSum(v) == FoldSet(LAMBDA k, acc : k * v[k] + acc, 0, DOMAIN v)
 C == 3
 \* canonical dict of one output row: size one -> {"output": v}, vector -> {index: v_index}
@@ -33,27 +34,43 @@ Init == \/ /\ mode = "array" /\ shape \in Shapes /\ batch \in 0..3 /\ names \in 
            /\ ValidCase /\ seen = {} /\ outs = <<>> /\ labels = <<>>
         \/ /\ mode = "river" /\ shape = "label" /\ batch = 0 /\ names = <<>> /\ keyorder = AllFeatures
            /\ seen = {} /\ outs = <<>> /\ labels = <<>>
+        \/ /\ mode = "array_seq" /\ shape = "n_c" /\ batch = 0 /\ names \in NameChoices /\ keyorder = AllFeatures
+           /\ seen = {} /\ outs = <<>> /\ labels = <<>>
 \* expected result of the wrapper call of an "array" case: a dict (batch = 0) or the list of row dicts
 Expected == IF batch = 0 THEN CanonicalRow(1, Width) ELSE [i \in 1..batch |-> CanonicalRow(i, Width)]
+\* (3) one wrapper object receiving a *sequence* of calls with changing key orders, dict and list inputs and
+\*     extra keys: the wrapper is stateless, every result is the canonical form of that call's input alone
+NextOrder(ko) == <<ko[2], ko[3], ko[1]>>
+Calls == [ko : KeyOrders, batch : {0, 2}, extra : BOOLEAN]
+RowOrder(c, i) == IF i = 1 THEN c.ko ELSE NextOrder(c.ko)        \* rows of one batch use different key orders
+CallExpected(c) == IF c.batch = 0 THEN [k \in 0..(C - 1) |-> (k + 1) * WSum(ReachingKO(1, c.ko))]
+                   ELSE [i \in 1..c.batch |-> [k \in 0..(C - 1) |-> (k + 1) * WSum(ReachingKO(i, RowOrder(c, i)))]]
+SeqStep(c) == /\ mode = "array_seq" /\ Len(labels) < 3
+              /\ (c.extra => names # <<>>)          \* without feature names every key reaches the model
+              /\ labels' = Append(labels, c) /\ outs' = Append(outs, CallExpected(c))
+              /\ UNCHANGED <<mode, shape, batch, names, keyorder, seen>>
 Labels == {"x", "y", "z"}
 \* river string label: one-hot over the labels seen so far (including the current one)
 Predict(l) == /\ mode = "river" /\ Len(labels) < 4
               /\ seen' = seen \cup {l} /\ labels' = Append(labels, l)
               /\ outs' = Append(outs, [k \in seen \cup {l} |-> IF k = l THEN 1 ELSE 0])
               /\ UNCHANGED <<mode, shape, batch, names, keyorder>>
-Next == \E l \in Labels : Predict(l)
+Next == (\E l \in Labels : Predict(l)) \/ (\E c \in Calls : SeqStep(c))
 Spec == Init /\ [][Next]_vars
 \* with feature names the result does not depend on the key order of the input dict
 OrderIndependentWithNames == (mode = "array" /\ names # <<>>) =>
       \A k \in 1..Len(names) : Reaching(1)[k] = Val(1, names[k])
 \* a batch call equals the row-wise single calls
 BatchEqualsRowwise == (mode = "array" /\ batch > 0) => \A i \in 1..batch : Expected[i] = CanonicalRow(i, Width)
-OneHot == \A i \in 1..Len(outs) : /\ FoldSet(LAMBDA k, acc : outs[i][k] + acc, 0, DOMAIN outs[i]) = 1
+OneHot == mode = "river" => \A i \in 1..Len(outs) : /\ FoldSet(LAMBDA k, acc : outs[i][k] + acc, 0, DOMAIN outs[i]) = 1
                                   /\ outs[i][labels[i]] = 1
                                   /\ DOMAIN outs[i] = { labels[j] : j \in 1..i }
 Emit == PrintT(ToJson(IF mode = "array"
                       THEN [mode |-> mode, shape |-> shape, batch |-> batch, names |-> names, keyorder |-> keyorder,
                             width |-> Width, reaching |-> [i \in 1..(IF batch = 0 THEN 1 ELSE batch) |-> Reaching(i)],
                             expected |-> Expected]
-                      ELSE [mode |-> mode, labels |-> labels, outs |-> outs]))
+                      ELSE IF mode = "river" THEN [mode |-> mode, labels |-> labels, outs |-> outs]
+                      ELSE [mode |-> mode, names |-> names, calls |-> labels, expected |-> outs]))
+\* a result never depends on earlier calls: equal calls give equal results wherever they occur in the history
+Stateless == mode = "array_seq" => \A i, j \in 1..Len(labels) : labels[i] = labels[j] => outs[i] = outs[j]
 ==========================================================================
